@@ -36,6 +36,19 @@ class SymStr(Abs):
         return "SymStr(%r)" % (self.parts,)
 
 
+class SymBits(Abs):
+    """A binary string of known length whose characters are symbolic bits (MSB first), as produced by
+    '{0:0Nb}'.format(v) for a symbolic value v.  `prefix` is a literal prefix such as '#b'."""
+    pytype = "str"
+
+    def __init__(self, bits, prefix=""):
+        self.bits = list(bits)      # terms, each denoting 0 or 1
+        self.prefix = prefix
+
+    def __repr__(self):
+        return "SymBits(%s%d bits)" % (self.prefix, len(self.bits))
+
+
 class World(Domain):
     def __init__(self, repo=None):
         self.repo = repo or get_repo()
@@ -312,6 +325,11 @@ class World(Domain):
                 if self.kinds.get(obj.t[1] if obj.t[0] == "var" else None) == "real":
                     raise Unsupported("denominator of symbolic rational")
                 return True, 1
+        if isinstance(obj, SymBits):
+            if name == "startswith":
+                return True, Prim(lambda i, a, k, o=obj: isinstance(a[0], str) and o.prefix.startswith(a[0]) if o.prefix or a[0] == ""
+                                  else (a[0] == ""), "SymBits.startswith")
+            raise Unsupported("method %s of a symbolic bit string" % name)
         if isinstance(obj, SymStr) or (isinstance(obj, str) and False):
             raise Unsupported("method %s of symbolic string" % name)
         return False, None
@@ -347,6 +365,8 @@ class World(Domain):
         return False, None
 
     def isinstance(self, it, v, t):
+        if isinstance(v, SymBits) and isinstance(t, (ExtRef, Prim)) and t.name.split(".")[-1] == "str":
+            return True
         if isinstance(t, ClassRef) and t.qual == FNODE:
             return self.is_node(v)
         if isinstance(t, ClassRef) and t.qual.startswith("pysmt.typing."):
@@ -485,6 +505,8 @@ class World(Domain):
         return type(p) is type(q) and p == q
 
     def contains(self, it, container, item):
+        if isinstance(item, SymBits) and len(item.bits) == 1 and not item.prefix and isinstance(container, (list, tuple)):
+            return True, ("0" in container and "1" in container)
         if isinstance(container, AObj) and container.cls == FM:
             return True, self.is_node(item)
         return False, None
@@ -509,6 +531,12 @@ class World(Domain):
         return True, SymStr(list(parts))
 
     def format_percent(self, it, fmt, vals):
+        if fmt == "#b%s" and len(vals) == 1 and isinstance(vals[0], (SymBits, str)):
+            v = vals[0]
+            if isinstance(v, str):
+                return True, "#b" + v
+            if not v.prefix:
+                return True, SymBits(v.bits, prefix="#b")
         return True, SymStr([fmt] + list(vals))
 
     _DUNDER = {"+": "add", "-": "sub", "*": "mul", "/": "truediv", "//": "floordiv", "%": "mod", "&": "and",
@@ -528,6 +556,24 @@ class World(Domain):
         return False, None
 
     def binop(self, it, op, a, b):
+        if isinstance(a, SymBits) or isinstance(b, SymBits):
+            def bits_of(x):
+                if isinstance(x, SymBits) and not x.prefix:
+                    return x.bits
+                if isinstance(x, str) and all(ch in "01" for ch in x):
+                    return [("const", int(ch)) for ch in x]
+                return None
+            if op == "+":
+                ba, bb = bits_of(a), bits_of(b)
+                if ba is not None and bb is not None:
+                    return True, SymBits(ba + bb)
+            if op == "*":
+                x, n = (a, b) if isinstance(a, SymBits) else (b, a)
+                if isinstance(n, int) and not isinstance(n, bool) and bits_of(x) is not None:
+                    return True, SymBits(bits_of(x) * n)
+                if isinstance(n, SymInt):
+                    raise Unsupported("bit-string repetition by a symbolic count")
+            raise Unsupported("operator %s on a symbolic bit string" % op)
         d = self._DUNDER.get(op)
         if d and isinstance(a, AObj):
             hit, r = self._dunder(it, a, "__%s__" % d, [b])
@@ -547,9 +593,56 @@ class World(Domain):
 
     def py_method(self, it, obj, name, args, kwargs):
         if isinstance(obj, str) and name == "format":
+            import re as _re
+            m = _re.match(r"^\{0?:0(\d+)b\}$", obj)
+            if m and len(args) == 1 and isinstance(args[0], SymInt):
+                n = int(m.group(1))
+                t = args[0].t
+                return True, SymBits([("&", (">>", t, ("const", i)), ("const", 1)) for i in range(n - 1, -1, -1)])
             return True, SymStr([obj] + list(args))
         if isinstance(obj, str) and name in ("join",):
             return True, SymStr([obj] + list(it.iterate(args[0])))
+        return False, None
+
+    def slice(self, it, c, lo, hi, step):
+        if isinstance(c, SymBits) and not any(isinstance(x, Abs) for x in (lo, hi, step)):
+            if c.prefix:
+                # slicing off a literal prefix:  value[2:]
+                if lo == len(c.prefix) and hi is None and step is None:
+                    return True, SymBits(c.bits)
+                raise Unsupported("slice of a prefixed bit string")
+            return True, SymBits(c.bits[lo:hi:step])
+        return False, None
+
+    def getitem(self, it, c, k):
+        if isinstance(c, SymBits) and isinstance(k, int) and not c.prefix:
+            try:
+                return True, SymBits([c.bits[k]])
+            except IndexError:
+                raise AbsRaise("IndexError", ("string index out of range",))
+        return False, None
+
+    def len(self, it, v):
+        if isinstance(v, SymBits):
+            return True, len(v.prefix) + len(v.bits)
+        return False, None
+
+    def iterate(self, it, v):
+        if isinstance(v, SymBits) and not v.prefix:
+            return True, [SymBits([b]) for b in v.bits]
+        return False, None
+
+    def int(self, it, args):
+        if isinstance(args[0], SymBits) and len(args) == 2 and args[1] == 2 and not args[0].prefix:
+            bits = args[0].bits
+            if not bits:
+                raise AbsRaise("ValueError", ("invalid literal for int() with base 2: ''",))
+            t = None
+            n = len(bits)
+            for i, b in enumerate(bits):
+                term = ("*", b, ("const", 1 << (n - 1 - i)))
+                t = term if t is None else ("+", t, term)
+            return True, SymInt(t)
         return False, None
 
     def id(self, it, v):
